@@ -249,6 +249,14 @@ func (h *connHandshaker) Start(p Pipe) {
 	// If the following type assertion fails, then its a software bug.
 	conn := p.(connHandshakerPipe)
 	h.Lock()
+	if h.closed {
+		// Accepted while we were being closed: nobody is going to
+		// wait for this one, and Close has already swept the work
+		// queue, so it must not be left to a peer that may never speak.
+		h.Unlock()
+		_ = conn.Close()
+		return
+	}
 	h.workq[conn] = true
 	h.Unlock()
 	go h.worker(conn)
